@@ -53,7 +53,12 @@ def expected_stream(trace, focus, contexts, const_ctx, fn):
     return out
 
 
-def check_case(fn, recipe, script, focus, contexts, rec=None):
+def check_case(fn, recipe, script, focus, contexts, rec=None, other=None):
+    """`other` = (order, names): a second probe on other variables of the same function whose
+    life overlaps the main probe's activation without being nested in it:
+      'fifo'  other on, main on, other off, call, main off
+      'inner' main on, other on, other off, call, main off
+      'late'  main on, other on, call, main off, other off"""
     from ptera import probing
 
     src = PG.render(fn)
@@ -66,8 +71,8 @@ def check_case(fn, recipe, script, focus, contexts, rec=None):
         PR.forget(g2)
     const_ctx = {}
     for c in contexts:
-        if c in ("G1", "G2"):
-            const_ctx[c] = {"G1": 100, "G2": 200}[c]
+        if c in ("G1", "G2", "GN"):
+            const_ctx[c] = {"G1": 100, "G2": 200, "GN": None}[c]
         if c == "cl":
             const_ctx[c] = 7
     want = expected_stream(H.trace, focus, contexts, const_ctx, fn)
@@ -75,8 +80,37 @@ def check_case(fn, recipe, script, focus, contexts, rec=None):
     sel = f"f({', '.join(contexts)}) > {focus}" if contexts else f"f > {focus}"
     try:
         with PR.time_limit(3.0):
-            with probing(sel, env={"f": f}).values() as got:
-                out = PR.run_call(f, fn, recipe, glb, script)
+            if other is None:
+                with probing(sel, env={"f": f}).values() as got:
+                    out = PR.run_call(f, fn, recipe, glb, script)
+            else:
+                order, onames = other
+                main = probing(sel, env={"f": f})
+                got = main.accum()
+                oth = probing(*[f"f > {n}" for n in onames], env={"f": f})
+                oth.accum()
+                try:
+                    if order == "fifo":
+                        oth.__enter__()
+                        main.__enter__()
+                        oth.__exit__(None, None, None)
+                        out = PR.run_call(f, fn, recipe, glb, script)
+                        main.__exit__(None, None, None)
+                    elif order == "inner":
+                        main.__enter__()
+                        oth.__enter__()
+                        oth.__exit__(None, None, None)
+                        out = PR.run_call(f, fn, recipe, glb, script)
+                        main.__exit__(None, None, None)
+                    else:
+                        main.__enter__()
+                        oth.__enter__()
+                        out = PR.run_call(f, fn, recipe, glb, script)
+                        main.__exit__(None, None, None)
+                        oth.__exit__(None, None, None)
+                finally:
+                    if HY.global_state_problems():
+                        HY.force_global_clean()
     except PR.Timeout:
         HY.force_global_clean()
         raise PropertyViolation("hang", f"probing({sel!r}) run did not finish within 3 s of CPU time\n{src}")
@@ -85,7 +119,7 @@ def check_case(fn, recipe, script, focus, contexts, rec=None):
             raise
         HY.force_global_clean()
         raise PropertyViolation(
-            "activation", f"probing({sel!r}) raised {HY.describe_exc(e)}\n{src}",
+            "activation", f"probing({sel!r}) (second probe: {other!r}) raised {HY.describe_exc(e)}\n{src}",
             extra={"bucket": "activation:" + HY.exc_bucket(e)},
         )
     finally:
@@ -107,7 +141,7 @@ def check_case(fn, recipe, script, focus, contexts, rec=None):
         i = next((k for k in range(min(len(w), len(g))) if w[k] != g[k]), min(len(w), len(g)))
         raise PropertyViolation(
             "stream",
-            f"probing({sel!r}) input {recipe!r} script {script!r}: {len(g)} events, expected {len(w)}; first "
+            f"probing({sel!r}) (second probe: {other!r}) input {recipe!r} script {script!r}: {len(g)} events, expected {len(w)}; first "
             f"difference at #{i}: expected {w[i] if i < len(w) else None}, got {g[i] if i < len(g) else None}\n"
             f"expected {w}\n     got {g}\n{src}",
             extra={"bucket": "stream:" + ("missing" if len(g) < len(w) else "extra" if len(g) > len(w) else "value")},
@@ -120,8 +154,9 @@ def check_case(fn, recipe, script, focus, contexts, rec=None):
                                                                      "yieldassign", "tuple"}) \
             or (nb >= 1 and twin_out["result"][0] == "exc")
         feats = {"form:" + x for x in forms} | {f"contexts:{len(contexts)}", f"bindings:{min(nb, 5)}",
-                                                "outcome:" + twin_out["result"][0]}
-        rec.case(h64(repr((src, recipe, script, focus, contexts))), bool(nt), feats,
+                                                "outcome:" + twin_out["result"][0],
+                                                "second-probe:" + (other[0] if other else "none")}
+        rec.case(h64(repr((src, recipe, script, focus, contexts, other))), bool(nt), feats,
                  sample=lambda: {"source": src, "input": recipe, "selector": sel, "events": w[:5]})
 
 
@@ -133,7 +168,9 @@ def replay(payload):
     recipe = {k: (v[0], v[1]) for k, v in payload["recipe"].items()}
     script = [tuple(s) for s in payload["script"]]
     try:
-        check_case(fn, recipe, script, payload["focus"], payload["contexts"])
+        other = payload.get("other")
+        check_case(fn, recipe, script, payload["focus"], payload["contexts"],
+                   other=(other[0], list(other[1])) if other else None)
     except PropertyViolation as v:
         return [{"clause": v.clause, "detail": v.detail}]
     return []
@@ -157,7 +194,7 @@ def strategy(flags=None):
         pool = [n for n in cands if n != focus]
         # read-only globals / closure variables only: a name the function declares global or
         # nonlocal and assigns is not an entry-time constant
-        ext = [n for n in c01.external_names(fn) if n in ("G1", "G2") and n not in decl]
+        ext = [n for n in c01.external_names(fn) if n in ("G1", "G2", "GN") and n not in decl]
         if fn.get("closure") and "cl" not in decl and any(e == ("var", "cl") for e in PG.walk_exprs(fn["body"])):
             ext.append("cl")
         pool = pool * 2 + ext
@@ -168,7 +205,16 @@ def strategy(flags=None):
             c = pool[draw(st.integers(0, len(pool) - 1))]
             if c not in contexts:
                 contexts.append(c)
-        return fn, recipe, script, focus, contexts
+        other = None
+        if draw(st.integers(0, 3)) == 0:
+            opool = [n for n in cands if n != focus] or [focus]
+            onames = []
+            for _ in range(draw(st.integers(1, 2))):
+                c = opool[draw(st.integers(0, len(opool) - 1))]
+                if c not in onames:
+                    onames.append(c)
+            other = (draw(st.sampled_from(["fifo", "inner", "late"])), onames)
+        return fn, recipe, script, focus, contexts, other
 
     return cases()
 
@@ -184,15 +230,16 @@ def shard(cfg):
     rec = Recorder()
 
     def body(case):
-        check_case(*case, rec=rec)
+        fn, recipe, script, focus, contexts, other = case
+        check_case(fn, recipe, script, focus, contexts, rec=rec, other=other)
 
     n, v, herr = hyp_search(strategy(c01.flags()), body, seed=cfg["seed"] * 1000 + cfg["shard"],
                             max_examples=cfg["examples"])
     res = rec.result()
     if v is not None:
-        fn, recipe, script, focus, contexts = v.case
+        fn, recipe, script, focus, contexts, other = v.case
         res["violations"] = [violation_record(PROPERTY, v, {"fn": fn, "recipe": recipe, "script": script,
-                                                            "focus": focus, "contexts": contexts,
+                                                            "focus": focus, "contexts": contexts, "other": other,
                                                             "source": PG.render(fn)})]
     if herr:
         res["harness_errors"] = [herr]
